@@ -7,6 +7,7 @@ Imported by tools/gen_tables.py (`run(read, emit, num)`); writes lean/EdpVerif/G
   * `enum ControlMessageType`            every `Name = n`
   * `impl TryFrom<u8> for ..`            every `n => Ok(Self::Name)` (and that the rest is `Err`)
   * `enum ControlMessage`                every variant with its declared fields and their types
+  * `unlink_id_from_term`, `unlink_id_to_term`   the whole body, as a normalised text (error values elided)
   * `from_term`                          the prelude checks (as a set of required patterns) and, per arm of the
                                          `match ControlMessageType::from_u8(msg_type)`: type name, arity guard, the
                                          variant built, and for each field the element index it is filled from
@@ -175,6 +176,43 @@ def squash(s):
     return s
 
 
+def tight(s):
+    """squash, then drop every space that is not between two word characters"""
+    return re.sub(r"(?<=\W) | (?=\W)", "", squash(s))
+
+
+def elide(s, heads=("Err(", "map_err(")):
+    """replace the (balanced) argument of every `Err(..)` / `map_err(..)` by `…`: error values are one class"""
+    out, i = [], 0
+    while i < len(s):
+        for h in heads:
+            if s.startswith(h, i) and (i == 0 or not (s[i - 1].isalnum() or s[i - 1] == "_")):
+                j = match_close(s, i + len(h) - 1)
+                if j > 0:
+                    out.append(h + "…)")
+                    i = j + 1
+                    break
+        else:
+            out.append(s[i])
+            i += 1
+    return "".join(out)
+
+
+# the two helpers the unlink arms call, whitespace- and error-text-insensitive (Impl/Control.lean:
+# `unlinkIdFromTerm`, `unlinkIdToTerm` are written against exactly this text)
+UNLINK_FROM_SIG = ("term:&OwnedTerm,what:&str", "Result<u64>")
+UNLINK_FROM_BODY = (
+    "match term{OwnedTerm::Integer(i)=>u64::try_from(*i).map_err(…),"
+    "OwnedTerm::BigInt(big)=>{let significant=big.digits.iter().rposition(|&d|d!=0).map_or(0,|p|p+1);"
+    "if significant>0&&big.sign.is_negative(){return Err(…);}"
+    "if significant>8{return Err(…);}"
+    "Ok(big.digits[..significant].iter().rev().fold(0u64,|acc,&digit|(acc<<8)|digit as u64))}"
+    "_=>Err(…)}")
+UNLINK_TO_SIG = ("id:u64", "OwnedTerm")
+UNLINK_TO_BODY = ("match i64::try_from(id){Ok(i)=>OwnedTerm::Integer(i),"
+                  "Err(…)=>OwnedTerm::BigInt(BigInt::new(false,id.to_le_bytes().to_vec()))}")
+
+
 def lstr(s):
     return '"' + s + '"'
 
@@ -223,6 +261,18 @@ def run(read, emit, num):
     b = block_after(src, r"\bfn\s+from_u8\s*\(")
     if b is None or squash(b) != "value.try_into().ok()":
         broken.append("from_u8 is no longer `value.try_into().ok()`")
+
+    # --- the unlink-id helpers ------------------------------------------------------------------------------------------
+    for fn_, sig, want in (("unlink_id_from_term", UNLINK_FROM_SIG, UNLINK_FROM_BODY),
+                           ("unlink_id_to_term", UNLINK_TO_SIG, UNLINK_TO_BODY)):
+        m = re.search(r"\bfn\s+" + fn_ + r"\s*\(([^)]*)\)\s*->\s*([^{]+)\{", src)
+        hb = block_after(src, r"\bfn\s+" + fn_ + r"\s*\(")
+        if not m or hb is None:
+            broken.append(f"fn {fn_} not found")
+        elif (tight(m.group(1)), tight(m.group(2))) != sig:
+            broken.append(f"fn {fn_}: signature changed to ({tight(m.group(1))}) -> {tight(m.group(2))}")
+        elif elide(tight(hb)) != want:
+            broken.append(f"fn {fn_}: body is no longer the modelled one: `{elide(tight(hb))[:200]}`")
 
     # --- enum ControlMessage ---------------------------------------------------------------------------------------
     b = block_after(src, r"\benum\s+ControlMessage\b(?!Type)")
@@ -305,8 +355,7 @@ def run(read, emit, num):
                 lets = {}
                 rest = stmts
                 for lm in re.finditer(
-                        r"let (\w+)=elements\[([0-9_]+)\]\.as_integer\(\)\.ok_or_else\((?:(?!let ).)*?\)\?;"
-                        r"if \1<0\{return Err\((?:(?!let ).)*?\);\}", stmts, re.S):
+                        r"let (\w+)=unlink_id_from_term\(&elements\[([0-9_]+)\],\"[^\"]*\"\)\?;", stmts, re.S):
                     lets[lm.group(1)] = num(lm.group(2))
                     rest = rest.replace(lm.group(0), "")
                 if rest.strip():
@@ -314,12 +363,16 @@ def run(read, emit, num):
                 uids, elems = [], []
                 for f in split_top(mo.group(3) or ""):
                     fm = re.fullmatch(r"(\w+):(.+)", f, re.S)
-                    if not fm:
+                    if not fm and re.fullmatch(r"\w+", f):
+                        fm = re.fullmatch(r"(\w+)", f)  # field-init shorthand `id` = `id: id`
+                        name, ex = f, f
+                    elif not fm:
                         broken.append(f"from_term arm {ty}: unrecognised field initialiser `{f[:50]}`")
                         continue
-                    name, ex = fm.group(1), fm.group(2)
+                    else:
+                        name, ex = fm.group(1), fm.group(2)
                     em = re.fullmatch(r"elements\[([0-9_]+)\]\.clone\(\)|mem::take\(&mut elements\[([0-9_]+)\]\)", ex)
-                    um = re.fullmatch(r"(\w+) as u64", ex)
+                    um = re.fullmatch(r"(\w+)", ex)
                     if em:
                         elems.append((name, "elem", num(em.group(1) or em.group(2))))
                     elif um and um.group(1) in lets:
@@ -379,10 +432,10 @@ def run(read, emit, num):
         if not seen_generic:
             broken.append(f"{fn_name}: Generic arm not found")
 
-    serialiser("to_term", r"&\s*self", "to", r"(\w+)\.clone\(\)", r"OwnedTerm::Integer\(\*(\w+) as i64\)",
+    serialiser("to_term", r"&\s*self", "to", r"(\w+)\.clone\(\)", r"unlink_id_to_term\(\*(\w+)\)",
                r"\{let mut elements=vec!\[OwnedTerm::Integer\(\*message_type as i64\)\];"
                r"elements\.extend_from_slice\(fields\);OwnedTerm::Tuple\(elements\)\}")
-    serialiser("into_term", r"self", "into", r"(\w+)", r"OwnedTerm::Integer\((\w+) as i64\)",
+    serialiser("into_term", r"self", "into", r"(\w+)", r"unlink_id_to_term\((\w+)\)",
                r"\{let mut elements=vec!\[OwnedTerm::Integer\(message_type as i64\)\];"
                r"elements\.extend\(fields\);OwnedTerm::Tuple\(elements\)\}")
 
